@@ -20,7 +20,7 @@ def run(chk):
                 "(3^d images when periodic); shift absent iff zero and an integer multiple in {-1,0,1} of the width on active axes; exact squared distances non-decreasing up to slack "
                 "8*eps*S*(sqrt k_i + sqrt k_{i+1}) + 64*eps^2*S^2 (S = coordinate magnitude); X (small inputs): Cand.bestFirst on the dumped r-tree with exact envelope keys gives the same key sequence; dumped tree nested; "
                 "non-trivial = sequence with >= 5 entries; distinct by record")
-    chk.lean(['MVoro.Props.C17', 'MVoro.Proofs.BestFirst'], [], [])
+    chk.lean(['MVoro.Props.C17', 'MVoro.Proofs.BestFirst'], ['MVoro.Obl.NN'], ['NN'])
     got = run_cells_op(chk, op='nnvisit')
     if got is None:
         return
